@@ -102,6 +102,7 @@ class Run(object):
         self.violations = []
         self.notes = {}
         self.tags = set()
+        self.parked = []  # actions waiting at the provider (pending / paused), not in flight
         self.tag_scopes = {}  # tag -> set of task names its consequences can reach (absent = the whole run)
         self.script = []  # explicit replayable ops
         self.trace = []  # compact human readable record
@@ -202,6 +203,7 @@ class Run(object):
                 self.ctl["cancel_req"] = True
             elif status in ("running", "resuming"):
                 self.ctl["pause_req"] = False
+                self.ctl["task_wait_seen"] = False
                 if ev["pre"]["status"] == "pausing":
                     # resumed before the workflow came to rest: a with-items task that was told to pause
                     # stays pausing and takes the workflow back to paused once its items have reported
@@ -370,6 +372,27 @@ class Run(object):
         self.trace.append(("status", a["task"], a["route"], a["item"], status,
                            "EXC " + repr(ev["exc"])[:160] if ev["exc"] is not None else ev["post"]["status"]))
         return ev
+
+    # ---- actions that wait at the provider: an inquiry (`pending`) or an action paused on the provider side (`paused`)
+    def park(self, i, status):
+        """in-flight action i reports `pending` / `paused` and is no longer in flight"""
+        ev = self.report_status(i, status)
+        a = self.inflight.pop(i)
+        a["parked_as"] = status
+        a["started"] = True
+        self.ctl["task_wait_seen"] = True  # the workflow may rest paused "following a paused or pending task" until resumed
+        self.parked.append(a)
+        return ev
+
+    def unpark(self, j):
+        """the inquiry is answered (the action then reports its outcome) / the paused action runs again"""
+        a = self.parked.pop(j)
+        a["was_parked"] = True
+        self.inflight.append(a)
+        i = len(self.inflight) - 1
+        if a["parked_as"] == "paused":
+            return self.report_status(i, "running")
+        return self.complete(i)
 
     def reset_accum(self, task, route):
         self.accum.pop((task, route), None)
